@@ -71,7 +71,9 @@ int c_aggregate(int nval, int operator, int maxnan, int * aggindex,
             agg += inp;
         }
         else if (operator == 2){
-            agg = inp > agg ? inp : agg;
+            /* maximum of the valid values only, whatever their sign */
+            if(!isnan(inputs[i]))
+                agg = (nagg == 1 || inp > agg) ? inp : agg;
         }
         else if (operator == 3){
             agg = inp;
